@@ -78,6 +78,9 @@ def run_shard(args):
         return run_family(args)
     if kind == 'literals':
         texts = [(t, 'literal forms: ' + g) for g, t in args[1]]
+    elif kind == 'dense':
+        allt = R.dense_family_texts(args[1])
+        texts = allt[args[2]::16]
     elif kind == 'layoutlex':
         _, n, shard = args
         texts = [(t, 'layout lexemes n=%d' % l) for t, l in X.shard_strings(LAYOUT_LEX, n, shard)]
@@ -105,6 +108,7 @@ def run(tier, seed):
     jobs += [('lexemes', nl, s) for s in X.prefix_shards(c05.LEXEMES, nl, 1)]
     ln = 4 if tier == 'quick' else 6
     jobs += [('layoutlex', ln, s) for s in X.prefix_shards(LAYOUT_LEX, ln, 1 if tier == 'quick' else 2)]
+    jobs += [('dense', 100 if tier == 'quick' else 200, k) for k in range(16)]
     lits = [x for gen in (c06.esc_cases, c06.prefix_cases, c06.newline_cases, c06.quote_run_cases, c06.concat_cases, c06.big_numbers, c06.float_cases) for x in gen(tier) if tier != 'quick' or x[0] != 'escape-u']
     if tier != 'quick':
         lits += list(c06.name_cases(tier))
@@ -125,7 +129,7 @@ def run(tier, seed):
     total.extra['family_table'] = table
     rule = ('(1) every string of length<=%d over the 26-character alphabet (incl. NUL-free control, CR/LF/FF, BOM, 2/3/4-byte characters) and of length<=%d over its first 14 characters, x 3 modes x '
             'start offsets {0, 1, 2^31, 2^32-2-len}: no panic (overflow checks on), Err.offset in [start, start+len] on a character boundary, token stream finite up to its first error; (2) every '
-            'sequence of <=%d lexemes of the %d-lexeme set and of <=%d lexemes of the 16-lexeme layout set (indentation pieces, continuations, line breaks, comment, form feed, block opener, brackets, BOM); (3) every single-character deletion/duplication/adjacent transposition/replacement by U+00E9/insertion of U+20AC of every G_ref sentence with <=%d non-default alternatives; (4) every literal form of the C06 escape/prefix/newline/concatenation corpus (all octal escapes 0..0o777, all \\xHH, every \\c%s); (5) %d scaling '
+            'size k = 1..100/200 of 48 one-parameter text families (names, digits in four bases, escapes, \\N{...} names, comments, blank-line runs, continuations, nesting, argument lists; plain and with a multi-byte character); every sequence of <=%d lexemes of the %d-lexeme set and of <=%d lexemes of the 16-lexeme layout set (indentation pieces, continuations, line breaks, comment, form feed, block opener, brackets, BOM); (3) every single-character deletion/duplication/adjacent transposition/replacement by U+00E9/insertion of U+20AC of every G_ref sentence with <=%d non-default alternatives; (4) every literal form of the C06 escape/prefix/newline/concatenation corpus (all octal escapes 0..0o777, all \\xHH, every \\c%s); (5) %d scaling '
             'families at k=1..4096 in sub-processes on an 8 MiB stack: no panic/abort/hang up to k=%d, steps(2k) <= 9*steps(k) for k>=64 (hook H2); states = distinct inputs, transitions = parser/lexer runs + steps'
             % (4 if tier == 'quick' else 5, 5 if tier == 'quick' else 6, nl, len(c05.LEXEMES), ln, d, ', all \\uXXXX, every \\N{name}' if tier != 'quick' else '', len(FAMILIES), REALISTIC))
     return C.finish(PROP, tier, seed, t0, total, rule,
